@@ -32,6 +32,39 @@ STRENGTHENED = {
  "C18-1": "C18 gained files with equal identifiers but different structure",
  "C18-2": "C18 gained byte-identical files with one base name in different directories",
  "C20-2": "C20 passes --year options in any order",
+ "C01-5": "C01 gained Meson subprojects carrying their own REUSE.toml, linted with --include-meson-subprojects",
+ "C01-6": "C01 gained files and .license siblings with an unparseable expression (lint must exit 1 and list the file)",
+ "C02-5": "C02 gained non-ASCII tag values straddling the 4 KiB boundary of files with a snippet marker",
+ "C02-6": "C02 gained identifiers spelled in another case than the SPDX list (values are read back as authored)",
+ "C03-5": "C03 gained submodules whose names contain blanks",
+ "C04-6": "C04 gained a REUSE.toml chain running through a Meson subproject, each include option on its own",
+ "C05-6": "C05 gained multi-glob annotations with two globstars in one glob next to overlapping short globs",
+ "C06-5": "C06 gained LicenseRef- texts without file extension",
+ "C07-5": "C07 gained multi-file and --recursive invocations over files that already have a .license sibling",
+ "C07-6": "C07 gained multi-file invocations where an earlier file already has notices of its own (nothing may leak to later files)",
+ "C08-3": "C08 gained bodies repeating the first-line declaration of their style",
+ "C08-4": "C08 gained existing multi-line headers whose closing line carries trailing text or blanks",
+ "C08-6": "C08 gained CRLF / CR files whose first line is longer than 4 KiB",
+ "C09-5": "C09 gained hand-written headers in multi-line styles with notices touching the delimiters",
+ "C10-4": "C10 gained two-year requests repeated with --merge-copyrights",
+ "C10-5": "C10 gained a template with a tag of its own (fixedtag)",
+ "C10-6": "C10 gained requests with 75-95 holders (headers beyond 4 KiB)",
+ "C11-4": "C11 gained --style together with --single-line / --multi-line on recognised extensions",
+ "C12-3": "C12 gained big files with a snippet marker and an ignore block sliding across every buffer boundary",
+ "C12-5": "C12 gained an unparseable expression outside the ignore block (outcomes, errors included, are compared)",
+ "C13-5": "C13 gained --include-meson-subprojects with defective files below subprojects/",
+ "C14-4": "C14 gained submodules, with runs started from other working directories",
+ "C14-5": "C14 gained LICENSES/ texts reachable under two paths (a link inside LICENSES/)",
+ "C15-3": "C15 gained siblings whose names start like the directory named to annotate -r",
+ "C15-4": "C15 gained runs from working directories other than the project root",
+ "C15-5": "C15 gained projects that are a subdirectory of a larger Git work tree",
+ "C16-4": "C16 gained the touch-count failpoint: the victim vanishes after the K-th time the tool looks at it, K enumerated",
+ "C16-5": "C16 gained well-formed configurations whose values are strings of glob / regex metacharacters",
+ "C16-6": "C16 gained dep5 together with a REUSE.toml that only exists in a subdirectory",
+ "C17-4": "C17 gained a write fault at flush time (/dev/full behind REUSE.toml): dep5 must survive a failed conversion",
+ "C19-4": "C19 gained --all in projects using deprecated and unknown identifiers",
+ "C20-5": "C20 gained histories of plain runs (and hand-written headers) followed by a merging run that repeats a year already there",
+ "C20-6": "C20 gained annotate --template with the holder grammar",
 }
 print("| id | change (by a sub-agent that saw only the property text) | needs | caught by | note |")
 print("|---|---|---|---|---|")
